@@ -49,3 +49,13 @@ package server
 //@   ghost gFull bool = false
 //@   ghostset at "if !adminPriv && !fullwrite && locked {": gFull = fullwrite
 //@   assert at "datastore.NewData(uuid, typeservice": adminPriv || gFull || !locked
+
+// repoBranchHandler (C07): a branch request reaches the version manager only with an explicit branch name
+// that is not one of the two spellings of the default branch ("" and "master") - otherwise the default
+// branch would get a second chain and a second head under the key <root>+"master".
+//@ func repoBranchHandler
+//@   prop C07
+//@   safety_off
+//@   calls_havoc
+//@   modifies *
+//@   assert at "newuuid, err := datastore.NewVersion(uuid, jsonData.Note, jsonData.Branch, uuidPtr)": jsonData.Branch != "" && jsonData.Branch != "master"
